@@ -2,6 +2,7 @@ package main
 
 import (
 	"fmt"
+	"os"
 	"go/types"
 	"math/big"
 	"strings"
@@ -167,6 +168,39 @@ func (e *Engine) harnessCall(st *State, th *Thread, fn *ssa.Function, args []Val
 	case "verifNoAllocSince":
 		e.checkNoAlloc(st, args[0].(StrV).S, fn)
 		return nil, true
+	case "verifIsNative":
+		return BoolV{tb.ff}, true
+	case "verifChecksumCalls":
+		n := 0
+		for _, ev := range st.events {
+			if ev.Kind == "checksum" {
+				n++
+			}
+		}
+		return IntV{tb.BV(uint64(n), 64)}, true
+	case "verifChecksumArg", "verifChecksumResult":
+		k := int(args[0].(IntV).T.C)
+		for _, ev := range st.events {
+			if ev.Kind != "checksum" {
+				continue
+			}
+			if k > 0 {
+				k--
+				continue
+			}
+			if fn.Name() == "verifChecksumResult" {
+				return ev.Vals[1], true
+			}
+			vals := ev.Vals[0].(ArrV).E
+			arr := aZeroArr
+			for i, v := range vals {
+				arr = e.arrStore(arr, tb.BV(uint64(i), 64), v.(IntV).T)
+			}
+			nn := tb.BV(uint64(len(vals)), 64)
+			o := st.newBytes(e, arr, nn, "checksum-arg")
+			return SliceV{Obj: o.id, Off: tb.BV(0, 64), Len: nn, Cap: nn}, true
+		}
+		panic(engineErr("no such Checksum call"))
 	case "verifNote":
 		return nil, true
 	case "verifPendingGoroutines":
@@ -267,7 +301,15 @@ func (e *Engine) hardQuery(st *State, extra *Term) string {
 	if s, err := scriptInt(st.pc, extra); err == nil {
 		jobs["z3-int"] = [2]string{"z3", s}
 	}
-	r, _ := Race(time.Duration(e.cfg.HardTimeout)*time.Second, jobs, e.stats)
+	if d := os.Getenv("GSE_DUMP_HARD"); d != "" {
+		for k, j := range jobs {
+			os.WriteFile(fmt.Sprintf("%s/%s_%d.smt2", d, k, e.stats.OneShot), []byte(j[1]), 0o644)
+		}
+	}
+	r, who := Race(time.Duration(e.cfg.HardTimeout)*time.Second, jobs, e.stats)
+	if os.Getenv("GSE_VERBOSE") != "" {
+		fmt.Fprintf(os.Stderr, "  hard query: %s by %s\n", r, who)
+	}
 	return r
 }
 
